@@ -16,6 +16,7 @@ import (
 
 	shell_operator "github.com/flant/shell-operator/pkg/shell-operator"
 	"github.com/flant/shell-operator/pkg/utils/string_helper"
+	"github.com/flant/shell-operator/pkg/utils/verifsched"
 	"github.com/flant/shell-operator/pkg/webhook/admission"
 )
 
@@ -230,23 +231,25 @@ type c14Req struct {
 }
 
 // one step of a case: a single request, or several overlapping requests whose hook runs are
-// interleaved as Sched says: "s<i>" request i is sent (its run is prepared, its hook process starts),
-// "w<i>" its hook writes its output files, "x<i>" its hook exits and the request is answered.
+// interleaved as Sched says: "h<i>" request i is sent and handed over by the hook manager (its task with
+// its binding context is built; the hook run has not begun — optional, "s<i>" alone does both),
+// "s<i>" its run is prepared and its hook process starts, "w<i>" its hook writes its output files,
+// "x<i>" its hook exits and the request is answered.
 type c14Step struct {
 	Reqs  []c14Req
 	Sched []string
 }
 
-// c14RandSched: a random interleaving of s<i> < w<i> < x<i> for n requests
+// c14RandSched: a random interleaving of h<i> < s<i> < w<i> < x<i> for n requests
 func c14RandSched(rng *Rng, n int) []string {
 	next := make([]int, n)
 	var out []string
-	for len(out) < 3*n {
+	for len(out) < 4*n {
 		i := rng.Intn(n)
-		if next[i] >= 3 {
+		if next[i] >= 4 {
 			continue
 		}
-		out = append(out, fmt.Sprintf("%c%d", "swx"[next[i]], i+1))
+		out = append(out, fmt.Sprintf("%c%d", "hswx"[next[i]], i+1))
 		next[i]++
 	}
 	return out
@@ -504,16 +507,61 @@ func c14RunSteps(r *Run, c *Case, hooks []c14Hook, steps []c14Step) {
 			}
 		} else {
 			// overlapping requests, interleaved as scripted
-			done := make([]chan *httptest.ResponseRecorder, len(st.Reqs))
-			hookRuns := make([]bool, len(st.Reqs))
-			// waits until the marker exists or request i is answered; "" = timeout
-			await := func(i int, marker string) string {
+			n := len(st.Reqs)
+			done := make([]chan *httptest.ResponseRecorder, n)
+			arrive := make([]<-chan *verifsched.Arrival, n)
+			parked := make([]*verifsched.Arrival, n)
+			sent := make([]bool, n)
+			hookRuns := make([]bool, n)
+			stepDone := make(chan struct{})
+			key := func(i int) string { return "admission/" + st.Reqs[i].UID }
+			logPath := filepath.Join(ctl, "log")
+			// the complete lines the hook processes of this step have logged so far
+			logNow := func() []string {
+				b, _ := os.ReadFile(logPath)
+				t := string(b)
+				if k := strings.LastIndexByte(t, '\n'); k >= 0 {
+					t = t[:k]
+				} else {
+					t = ""
+				}
+				var out []string
+				for _, l := range strings.Split(t, "\n") {
+					if l != "" {
+						out = append(out, l)
+					}
+				}
+				return out
+			}
+			logSeen := 0
+			// sends request i; park: its goroutine stops at the yield point between HandleAdmissionEvent
+			// (the task with its binding context is built) and taskHandler (the hook run)
+			launch := func(i int, park bool) {
+				sent[i] = true
+				if park {
+					arrive[i] = sched.Subscribe(key(i))
+				}
+				done[i] = make(chan *httptest.ResponseRecorder, 1)
+				go func(q c14Req, ch chan *httptest.ResponseRecorder) { ch <- send(q) }(st.Reqs[i], done[i])
+			}
+			// waits until cond holds ("ok"), request i is parked at the yield point (only when wantPark:
+			// "parked") or request i is answered ("answered"); "" = timeout
+			await := func(i int, wantPark bool, cond func() bool) string {
 				deadline := time.Now().Add(waitMax)
 				for time.Now().Before(deadline) {
-					if marker != "" && exists(marker) {
-						return "marker"
+					if cond != nil && cond() {
+						return "ok"
 					}
-					if recs[i] == nil {
+					if wantPark && parked[i] == nil && arrive[i] != nil {
+						select {
+						case parked[i] = <-arrive[i]:
+						default:
+						}
+					}
+					if wantPark && parked[i] != nil {
+						return "parked"
+					}
+					if recs[i] == nil && done[i] != nil {
 						select {
 						case recs[i] = <-done[i]:
 						default:
@@ -526,55 +574,133 @@ func c14RunSteps(r *Run, c *Case, hooks []c14Hook, steps []c14Step) {
 				}
 				return ""
 			}
-			stuck := ""
+			// lets request i pass the yield point (now, or as soon as it gets there)
+			release := func(i int) {
+				if parked[i] != nil {
+					parked[i].Release()
+					parked[i] = nil
+					return
+				}
+				if arrive[i] != nil && recs[i] == nil {
+					go func(ch <-chan *verifsched.Arrival) {
+						select {
+						case a := <-ch:
+							a.Release()
+						case <-stepDone:
+						}
+					}(arrive[i])
+					arrive[i] = nil
+				}
+			}
+			// releases every gate of the step and collects the answers
+			finishAll := func() {
+				for _, q := range st.Reqs {
+					touch(filepath.Join(syncDir, q.UID+".write"))
+					touch(filepath.Join(syncDir, q.UID+".go"))
+				}
+				for i := range st.Reqs {
+					if !sent[i] {
+						launch(i, false)
+					} else {
+						release(i)
+					}
+				}
+				for i := range st.Reqs {
+					await(i, false, nil)
+				}
+			}
+			stuck, deviated := "", false
 			for _, ev := range st.Sched {
 				i, _ := strconv.Atoi(ev[1:])
 				i--
 				q := st.Reqs[i]
 				sy := filepath.Join(syncDir, q.UID)
 				switch ev[0] {
-				case 's':
-					done[i] = make(chan *httptest.ResponseRecorder, 1)
-					go func(q c14Req, ch chan *httptest.ResponseRecorder) { ch <- send(q) }(q, done[i])
-					switch await(i, sy+".started") {
-					case "marker":
-						hookRuns[i] = true
-						c.Op(fmt.Sprintf("ov start %s path=%s", c14Enc(q.UID), c14Enc(q.Path)), "started")
+				case 'h':
+					launch(i, true)
+					switch await(i, true, nil) {
+					case "parked":
+						c.Op(fmt.Sprintf("ov hand %s path=%s", c14Enc(q.UID), c14Enc(q.Path)), "handed")
 					case "answered":
-						c.Op(fmt.Sprintf("ov start %s path=%s", c14Enc(q.UID), c14Enc(q.Path)), "answered")
+						c.Op(fmt.Sprintf("ov hand %s path=%s", c14Enc(q.UID), c14Enc(q.Path)), "answered")
+					default:
+						stuck = ev
+					}
+				case 's':
+					startLine := fmt.Sprintf("ov start %s path=%s", c14Enc(q.UID), c14Enc(q.Path))
+					if !sent[i] {
+						launch(i, true)
+						if await(i, true, nil) == "" {
+							stuck = ev
+							break
+						}
+					}
+					if recs[i] != nil {
+						c.Op(startLine, "answered")
+						break
+					}
+					before := logSeen
+					release(i)
+					switch await(i, false, func() bool { return len(logNow()) > before }) {
+					case "ok":
+						// exactly one request was let go: the new log line is its hook process
+						lines := logNow()
+						f := strings.Fields(lines[before])
+						logSeen = len(lines)
+						hid, name, guid := -1, "?", "?"
+						if len(f) >= 3 {
+							idx, _ := strconv.Atoi(f[1])
+							hid, name = nameOf(f[0], idx)
+							guid = f[2]
+						}
+						if guid == q.UID {
+							if await(i, false, func() bool { return exists(sy + ".started") }) == "" {
+								stuck = ev
+								break
+							}
+							hookRuns[i] = true
+							c.Op(startLine, "started")
+						} else {
+							c.Op(startLine, "handed-another-request")
+							deviated = true
+						}
+						c.Oracle(fmt.Sprintf("handed path=%s uid=%s ghook=%d gbinding=%s guid=%s", c14Enc(q.Path), c14Enc(q.UID), hid, c14Enc(name), c14Enc(guid)))
+					case "answered":
+						c.Op(startLine, "answered")
 					default:
 						stuck = ev
 					}
 				case 'w':
 					touch(sy + ".write")
-					if hookRuns[i] && await(i, sy+".wrote") == "" {
+					if hookRuns[i] && await(i, false, func() bool { return exists(sy + ".wrote") }) == "" {
 						stuck = ev
 					}
 					c.Op("ov write "+c14Enc(q.UID), "ok")
 				case 'x':
 					touch(sy + ".go")
-					if await(i, "") == "" {
+					if await(i, false, nil) == "" {
 						stuck = ev
 					}
 					c.Op("ov exit "+c14Enc(q.UID), "ok")
 				}
-				if stuck != "" {
+				if stuck != "" || deviated {
 					break
 				}
 			}
+			if stuck != "" || deviated {
+				// let every run end: the script cannot be followed any further
+				finishAll()
+			}
+			for i := range st.Reqs {
+				sched.Unsubscribe(key(i))
+			}
+			close(stepDone)
 			if stuck != "" {
-				// release everything and let the runs end; the case cannot be decided
-				for _, q := range st.Reqs {
-					touch(filepath.Join(syncDir, q.UID+".write"))
-					touch(filepath.Join(syncDir, q.UID+".go"))
-				}
-				for i := range st.Reqs {
-					if done[i] != nil {
-						await(i, "")
-					}
-				}
-				c.Inconcl = "the scripted interleaving got stuck at " + stuck + " (a marker file did not appear in time)"
+				c.Inconcl = "the scripted interleaving got stuck at " + stuck + " (a marker did not appear in time)"
 				return
+			}
+			if deviated {
+				c.Note("overlap:a-hook-process-was-handed-another-request")
 			}
 			c.Note(fmt.Sprintf("overlap:requests=%d", len(st.Reqs)))
 		}
@@ -634,7 +760,7 @@ func c14Variant(rng *Rng, p string) string {
 }
 
 func runC14(r *Run) {
-	r.Rule = "1-3 hooks with 1-3 validating/mutating bindings each (fully qualified names for validating; arbitrary names for mutating: upper case, blanks, slashes, empty path segments, non-ASCII; names whose SafeURL forms collide within and across hooks), a scripted outcome per (hook, binding): exit code x response file (empty, not JSON, truncated, wrong types, bad base64, JSON followed by garbage, two documents, {}, null, unknown fields, allowed/denied with message/warnings/base64 JSONPatch); 3-6 requests per case: registered paths and variants (trailing/double slashes, upper case, other configuration id, prefix/suffix changes, unknown, /, /hooks), bodies valid / garbage / without request. A run may also leave metric / object patch operation files behind (a valid metric operation; a metrics file that is not JSON; a metric operation that does not validate; an unknown object patch operation; an unparsable object patch file) — all but the first make the hook task fail after a clean exit. Overlap cases: 2-3 requests in flight at the same time (mostly to the same hook and binding, each with its own scripted outcome), the order of \"run prepared / hook writes its files / hook exits\" over all of them chosen at random and forced with marker files. Everything runs through the real chain: chi router of the admission WebhookHandler (httptest) -> the event closure of initValidatingWebhookManager -> HookManager routing -> taskHandler -> Hook.Run -> bash -> response file -> AdmissionReview. Plus differential lines for SafeURLString and detectConfigurationAndWebhook on random strings. A case is non-trivial when a hook process ran; distinct = distinct op-line sequences."
+	r.Rule = "1-3 hooks with 1-3 validating/mutating bindings each (fully qualified names for validating; arbitrary names for mutating: upper case, blanks, slashes, empty path segments, non-ASCII; names whose SafeURL forms collide within and across hooks), a scripted outcome per (hook, binding): exit code x response file (empty, not JSON, truncated, wrong types, bad base64, JSON followed by garbage, two documents, {}, null, unknown fields, allowed/denied with message/warnings/base64 JSONPatch); 3-6 requests per case: registered paths and variants (trailing/double slashes, upper case, other configuration id, prefix/suffix changes, unknown, /, /hooks), bodies valid / garbage / without request. A run may also leave metric / object patch operation files behind (a valid metric operation; a metrics file that is not JSON; a metric operation that does not validate; an unknown object patch operation; an unparsable object patch file) — all but the first make the hook task fail after a clean exit. Overlap cases: 2-4 requests in flight at the same time (mostly to the same hook and binding, also to other bindings of the same hook and to other hooks, each with its own uid and its own scripted outcome), the order of \"handed over by the hook manager (task and binding context built, hook run not begun) / run prepared and hook process started / hook writes its files / hook exits\" over all of them chosen at random and forced with a yield point in the event closure (verifsched admission.taskBuilt) and marker files; every hook process is checked against the request it was started for (which request uid, which hook and binding it found in its binding context), every answer against its own request. Everything runs through the real chain: chi router of the admission WebhookHandler (httptest) -> the event closure of initValidatingWebhookManager -> HookManager routing -> taskHandler -> Hook.Run -> bash -> response file -> AdmissionReview. Plus differential lines for SafeURLString and detectConfigurationAndWebhook on random strings. A case is non-trivial when a hook process ran; distinct = distinct op-line sequences."
 	c14SharedHook(r)
 
 	// ---- corpus
@@ -719,6 +845,26 @@ func runC14(r *Run) {
 				Sched: []string{"s1", "s2", "s3", "w2", "w3", "w1", "x1", "x3", "x2"}},
 			{Reqs: []c14Req{{"/hooks/gate-example-com", "ok", "ov3-D", &allow1}, {"/hooks/nope", "ok", "ov3-E", &allow}, {"/hooks/gate-example-com", "ok", "ov3-F", &deny}},
 				Sched: []string{"s1", "w1", "s2", "s3", "w3", "w2", "x2", "x1", "x3"}},
+		})
+	})
+
+	r.One(6, func(c *Case, _ *Rng) {
+		c.Desc = "corpus: requests handed over by the hook manager while earlier ones wait for their hook run: two to one binding, four over two bindings of one hook and another hook"
+		deny := func(tag string) *c14Outcome {
+			return &c14Outcome{Kind: "d", Msg: "denied " + tag, Content: fmt.Sprintf(`{"allowed":false,"message":"denied %s"}`, tag)}
+		}
+		allow := func(tag string) *c14Outcome {
+			return &c14Outcome{Kind: "a", Warns: []string{"for " + tag}, Content: fmt.Sprintf(`{"allowed":true,"warnings":["for %s"]}`, tag)}
+		}
+		h1 := c14Hook{ID: 1, Bindings: []c14Binding{{"v", "gate.example.com"}, {"m", "mutGate"}}, Out: map[string]c14Outcome{"gate.example.com": {Kind: "e"}, "mutGate": {Kind: "e"}}}
+		h2 := c14Hook{ID: 2, Bindings: []c14Binding{{"v", "other.example.com"}}, Out: map[string]c14Outcome{"other.example.com": {Kind: "e"}}}
+		g, m, o := "/hooks/gate-example-com", "/hooks/mut-gate", "/hooks/other-example-com"
+		c14RunSteps(r, c, []c14Hook{h1, h2}, []c14Step{
+			{Reqs: []c14Req{{g, "ok", "hd-A", deny("A")}, {g, "ok", "hd-B", allow("B")}}, Sched: []string{"h1", "h2", "s1", "s2", "w1", "w2", "x1", "x2"}},
+			{Reqs: []c14Req{{g, "ok", "hd-C", allow("C")}, {g, "ok", "hd-D", deny("D")}}, Sched: []string{"h2", "h1", "s2", "w2", "x2", "s1", "w1", "x1"}},
+			{Reqs: []c14Req{{g, "ok", "hd-E", deny("E")}, {m, "ok", "hd-F", allow("F")}, {g, "ok", "hd-G", allow("G")}, {o, "ok", "hd-H", deny("H")}},
+				Sched: []string{"h1", "h2", "h3", "h4", "s4", "s3", "s2", "s1", "w1", "w2", "w3", "w4", "x4", "x1", "x3", "x2"}},
+			{Reqs: []c14Req{{m, "ok", "hd-I", allow("I")}}},
 		})
 	})
 
@@ -924,8 +1070,10 @@ func runC14(r *Run) {
 		u := 0
 		for s, ns := 0, rng.Range(1, 2); s < ns; s++ {
 			st := c14Step{}
-			nq := 2
-			if rng.Chance(30) {
+			nq := 2 // 2-4 requests in flight
+			if k := rng.Intn(100); k < 20 {
+				nq = 4
+			} else if k < 50 {
 				nq = 3
 			}
 			target := PickOne(rng, paths)
